@@ -1,4 +1,5 @@
 import LyModel.Sib.Tree
+import LyModel.Sib.TreeMk
 import LyModel.Sib.Rb
 import LyModel.Sib.RbDel
 import LyModel.Sib.RbMerge
@@ -10,6 +11,8 @@ driver ops of component `sib`:
   sides agree on it); the YANG text is for the harness only; `script` = ops separated by `;`, arguments by `,`:
 
     new,<id>,<parent|->,<mod:name>,<value-hex>     newopaq,<id>,<parent|->,<name>,<value-hex>
+    newlist2,<id>,<parent|->,<mod:name>,<predicates-hex>   newpath,<id>,<parent|->,<path-hex>,<value-hex>
+    findkeys,<anchor>,<mod:name>,<predicates-hex>
     ins_child,<id>,<target>   ins_sibling,<id>,<target>   ins_before,<id>,<target>   ins_after,<id>,<target>
     unlink,<id>   free,<id>   change,<id>,<value-hex>   find,<anchor>,<mod:name>,<value-hex>
 
@@ -69,6 +72,18 @@ def runOp (f : Forest) (op : String) : Res :=
   | ["find", a, nm, v] =>
     match a.toNat?, Hex.dec v with
     | some a, some v => let (m, n) := splitName nm; opFind f a m n v
+    | _, _ => .refuse "BadArg"
+  | ["newlist2", id, par, nm, preds] =>
+    match id.toNat?, optNat par, Hex.dec preds with
+    | some id, some par, some ps => let (m, n) := splitName nm; opNewList2 f id par m n ps
+    | _, _, _ => .refuse "BadArg"
+  | ["newpath", id, par, path, v] =>
+    match id.toNat?, optNat par, Hex.dec path, Hex.dec v with
+    | some id, some par, some p, some v => opNewPath f id par p v
+    | _, _, _, _ => .refuse "BadArg"
+  | ["findkeys", a, nm, preds] =>
+    match a.toNat?, Hex.dec preds with
+    | some a, some ps => let (m, n) := splitName nm; opFindKeys f a m n ps
     | _, _ => .refuse "BadArg"
   | _ => .refuse "BadOp"
 
